@@ -34,6 +34,12 @@ Definition ptype_eqb (a b : option (bool * N)) : bool :=
 Inductive case18 :=
 (* helpers.composite applied to the items, under cbitstruct / native *)
 | CEnc (items : list entry) (cbit native : option bytes)
+(* both back ends serialize the items to [bs], and parsing [bs] gives [dec] under both *)
+| CEncDec (items : list entry) (bs : bytes) (dec : option (list entry))
+(* the same with dec = Some items (keeps the case files small) *)
+| CRound (items : list entry) (bs : bytes)
+(* CompositeMetadata().parse(bs).items, same outcome under both back ends *)
+| CDec1 (bs : bytes) (out : option (list entry))
 (* CompositeMetadata().parse(bs).items under cbitstruct / native *)
 | CDec (bs : bytes) (cbit native : option (list entry))
 (* frame_helpers.pack_24bit(n) *)
@@ -48,6 +54,13 @@ Inductive case18 :=
 Definition chk18 (c : case18) : bool :=
   match c with
   | CEnc items cb nat => obytes_eqb (cm_encode_bk Cbit items) cb && obytes_eqb (cm_encode_bk Native items) nat
+  | CEncDec items bs dec =>
+      obytes_eqb (cm_encode_bk Cbit items) (Some bs) && obytes_eqb (cm_encode_bk Native items) (Some bs)
+      && oentries_eqb (cm_decode bs) dec
+  | CRound items bs =>
+      obytes_eqb (cm_encode_bk Cbit items) (Some bs) && obytes_eqb (cm_encode_bk Native items) (Some bs)
+      && oentries_eqb (cm_decode bs) (Some items)
+  | CDec1 bs out => oentries_eqb (cm_decode bs) out
   | CDec bs cb nat => oentries_eqb (cm_decode bs) cb && oentries_eqb (cm_decode bs) nat
   | CPack n cb nat => obytes_eqb (pack24 Cbit n) cb && obytes_eqb (pack24 Native n) nat
   | CType bs cb nat => ptype_eqb (parse_type bs) cb && ptype_eqb (parse_type bs) nat
